@@ -76,7 +76,7 @@ func c14Property(rec *Recorder) func(*rapid.T) {
 			rec.Sample(c)
 		}
 		if err := checkCell(c); err != nil {
-			rec.Violation("cell", c, "", err)
+			cellViolation(rec, c, err)
 			rt.Fatalf("C14 violation: %v", err)
 		}
 	}
